@@ -11,8 +11,9 @@ import (
 )
 
 type job struct {
-	id string
-	in CaseIn
+	id   string
+	in   CaseIn
+	twin bool
 }
 
 // Run generates (or replays) cases, executes them on a pool of rigs and writes case lines.
@@ -29,12 +30,18 @@ func Run(o *hx.Opts, w *lineio.Writer, prop int) error {
 			if err := json.Unmarshal(c.In, &in); err != nil {
 				return fmt.Errorf("replay %s: %w", c.ID, err)
 			}
-			jobs = append(jobs, job{c.ID, in})
+			fixInst(&in)
+			jobs = append(jobs, job{c.ID, in, in.Stream == "twins"})
 		}
 	} else {
 		if o.Budget <= 1 {
 			for _, s := range Systematic() {
-				jobs = append(jobs, job{s.id, s.in})
+				jobs = append(jobs, job{s.id, s.in, false})
+			}
+			if prop <= 2 {
+				for _, s := range Twins() {
+					jobs = append(jobs, job{s.id, s.in, true})
+				}
 			}
 		}
 		g := &Gen{R: o.Rand(int64(100 + prop))}
@@ -43,11 +50,11 @@ func Run(o *hx.Opts, w *lineio.Writer, prop int) error {
 			if prop == 3 && in.Kind != "create" {
 				continue // C03 speaks about creation requests only
 			}
-			jobs = append(jobs, job{id, in})
+			jobs = append(jobs, job{id, in, false})
 		}
 		for i := 0; i < o.N(350, 7000); i++ {
 			id, in := g.Malformed(i)
-			jobs = append(jobs, job{id, in})
+			jobs = append(jobs, job{id, in, false})
 		}
 	}
 	nrig := runtime.NumCPU() / 2
@@ -60,9 +67,21 @@ func Run(o *hx.Opts, w *lineio.Writer, prop int) error {
 	if nrig == 0 {
 		return nil
 	}
+	var twinRig *Rig
+	for _, j := range jobs {
+		if j.twin {
+			t, err := NewRig(o.Scratch, 99, TwinNames)
+			if err != nil {
+				return fmt.Errorf("twin rig: %w", err)
+			}
+			twinRig = t
+			defer t.Close()
+			break
+		}
+	}
 	rigs := make([]*Rig, nrig)
 	for i := range rigs {
-		r, err := NewRig(o.Scratch, i)
+		r, err := NewRig(o.Scratch, i, StdNames())
 		if err != nil {
 			return fmt.Errorf("rig %d: %w", i, err)
 		}
@@ -86,6 +105,9 @@ func Run(o *hx.Opts, w *lineio.Writer, prop int) error {
 			defer wg.Done()
 			for i := range ch {
 				in := jobs[i].in
+				if jobs[i].twin {
+					continue // run on the twins rig below
+				}
 				in.Container.Rest = FromContainer(ToContainer(&in.Container, false)).Rest
 				obs, err := r.RunCase(&in)
 				if err != nil {
@@ -101,6 +123,18 @@ func Run(o *hx.Opts, w *lineio.Writer, prop int) error {
 		}(r)
 	}
 	wg.Wait()
+	for i := range jobs {
+		if !jobs[i].twin {
+			continue
+		}
+		in := jobs[i].in
+		in.Container.Rest = FromContainer(ToContainer(&in.Container, false)).Rest
+		obs, err := twinRig.RunCase(&in)
+		if err != nil {
+			return fmt.Errorf("case %s: %w", jobs[i].id, err)
+		}
+		results[i] = &lineio.Case{ID: jobs[i].id, In: in, Obs: obs}
+	}
 	for _, c := range results {
 		if c != nil {
 			if err := w.Put(c); err != nil {
@@ -109,4 +143,31 @@ func Run(o *hx.Opts, w *lineio.Writer, prop int) error {
 		}
 	}
 	return firstErr
+}
+
+// fixInst fills in plugin instance numbers for inputs recorded before the field existed
+// (all zero): the n-th plugin of the input named X is the n-th instance named X of the rig.
+func fixInst(in *CaseIn) {
+	if len(in.Plugins) < 2 {
+		return
+	}
+	for _, p := range in.Plugins {
+		if p.Inst != 0 {
+			return
+		}
+	}
+	names := StdNames()
+	if in.Stream == "twins" {
+		names = TwinNames
+	}
+	used := map[int]bool{}
+	for i := range in.Plugins {
+		for j, n := range names {
+			if n == in.Plugins[i].Name && !used[j] {
+				in.Plugins[i].Inst = j
+				used[j] = true
+				break
+			}
+		}
+	}
 }
